@@ -13,6 +13,8 @@ CONSTANTS MinM, MaxM,      \* extents of the exhaustively checked shapes
           NumpyMaxM,       \* the NumPy model is checked for shapes with extents <= NumpyMaxM
           Seed, NRandom3,  \* pseudo-random 3D axes with entries in -2..2
           AllSmall3,       \* TRUE: also every non-singular 3D axes matrix with entries in -1..1
+          VarMod,          \* the argument-representation variants are replayed for the shapes whose
+                           \* extents sum to Seed modulo VarMod (1 = every shape)
           Emit
 
 Ext == MinM..MaxM
@@ -54,9 +56,44 @@ NodesFor(shape_) == [d_ \in 1..Len(shape_) |-> [x_ \in 1..shape_[d_] |-> x_ * x_
 W1dFor(shape_) == [d_ \in 1..Len(shape_) |-> [x_ \in 1..shape_[d_] |-> 2 * x_ + d_]]
 FTagsFor(shape_) == [d_ \in 1..Len(shape_) |-> [x_ \in 1..shape_[d_] |-> ((x_ * (d_ + 1)) % 5) - 2]]
 
+\* --- further dimensions of the quantifier ------------------------------------------------------
+\* non-integer origins / axes: the integer grid divided by a power of two (exact in binary floating
+\* point); the observed points are multiplied back by the harness, the judge is the integer one
+DenFor(shape_) == 2 ^ (1 + ((shape_[1] + 2 * shape_[2]) % 4))
+\* 1D nodes that are NOT sorted (neither ascending nor descending), pairwise distinct for M <= 10:
+\* the tuple law and get_points_along_axes hold for the nodes in the order given
+PermNodesFor(shape_) ==
+    [d_ \in 1..Len(shape_) |-> [x_ \in 1..shape_[d_] |-> (IF d_ = 2 THEN -1 ELSE 1) * ((x_ * 4 + d_) % 11) + d_]]
+HasVariants(shape_) == (ISumTo(shape_, Len(shape_)) + Seed) % VarMod = 0
+\* large, strongly non-cubic shapes: sampled indices instead of all (index maps and point law)
+BigShapes == << <<2, 97, 3>>, <<101, 2, 5>>, <<13, 11, 17>>, <<2, 1009>>, <<503, 2>>, <<64, 64>>, <<2, 200, 170>>, <<3, 2, 211>> >>
+BigSample(shape_) ==
+    LET nn == NPoints(shape_)
+        edge == {0, 1, nn - 1, nn - 2}
+        rows == UNION {UNION {{k_ * Stride(shape_, r_) - 1, k_ * Stride(shape_, r_), k_ * Stride(shape_, r_) + 1} :
+                                 k_ \in {1, 2, shape_[r_] - 1}} : r_ \in 1..Len(shape_)}
+        rnd == {((LcgSeq((Seed * 59 + nn) % 65536, 24)[k_]) * 977 + k_) % nn : k_ \in 1..24}
+    IN SetToSeq({x_ \in edge \cup rows \cup rnd : x_ >= 0 /\ x_ < nn})
+BigCases == [b_ \in 1..Len(BigShapes) |->
+                [shape |-> BigShapes[b_], origin |-> OriginFor(BigShapes[b_]), skew |-> SkewAxesFor(BigShapes[b_]),
+                 nodes |-> NodesFor(BigShapes[b_]), sample |-> BigSample(BigShapes[b_])]]
+\* tensor products of the library's own 1D quadratures (real nodes and weights): families, sizes, and
+\* the monomial powers of a separable integrand.  The harness replaces every observed coordinate by
+\* its position in the 1D node array (bit-identical look-up), which makes the tuple law an integer
+\* observation judged below; weights and integrals are compared in floating point.
+RealTensorCases == <<
+    [grids |-> <<"GaussLegendre", "GaussChebyshev">>, sizes |-> <<4, 3>>, powers |-> <<2, 1>>],
+    [grids |-> <<"UniformInteger", "GaussLegendre">>, sizes |-> <<3, 5>>, powers |-> <<1, 4>>],
+    [grids |-> <<"GaussLegendre", "Trapezoidal", "GaussLaguerre">>, sizes |-> <<3, 4, 2>>, powers |-> <<2, 0, 1>>],
+    [grids |-> <<"MidPoint", "Simpson", "GaussChebyshev">>, sizes |-> <<2, 5, 3>>, powers |-> <<1, 3, 2>>],
+    [grids |-> <<"GaussChebyshev", "GaussLegendre", "UniformInteger">>, sizes |-> <<5, 2, 4>>, powers |-> <<0, 1, 3>>] >>
+
 LayoutCases ==
     [shapes |-> SetToSeq({[shape |-> s_, origin |-> OriginFor(s_), skew |-> SkewAxesFor(s_), diag |-> DiagAxesFor(s_),
-                           nodes |-> NodesFor(s_), w1d |-> W1dFor(s_), ftags |-> FTagsFor(s_)] : s_ \in Shapes}),
+                           nodes |-> NodesFor(s_), w1d |-> W1dFor(s_), ftags |-> FTagsFor(s_),
+                           den |-> DenFor(s_), permnodes |-> PermNodesFor(s_), variants |-> HasVariants(s_)] : s_ \in Shapes}),
+     big |-> BigCases,
+     realtensor |-> RealTensorCases,
      axes2 |-> Axes2Pool,
      axes3 |-> IF AllSmall3 THEN Axes3Pool ELSE <<>>,
      random3 |-> SelectSeq([k_ \in 1..NRandom3 |-> [axes |-> RandomAxes3(k_), shape |-> RandomShape3(k_)]],
@@ -190,6 +227,41 @@ JudgeAlong ==
 JudgeSeparable ==
     AtRecord /\ Rec.kind = "tensor" /\ Has(Rec.integ) =>
         Rec.integ[1] = SeparableIntegral(RShape) \/ Say("separable-integral", 0, SeparableIntegral(RShape), Rec.integ[1])
+\* shape / ndim / size attributes of the grid object: <<ndim, size, M1, M2[, M3]>>
+JudgeAttrs ==
+    AtRecord /\ Has(Rec.attrs) =>
+        Rec.attrs = <<Len(RShape), RN>> \o RShape \/ Say("ndim-size-shape", 0, <<Len(RShape), RN>> \o RShape, Rec.attrs)
+\* sampled indices of a large shape: Rec.samples[x] = <<index, observed coordinates, coordinates_to_index of
+\* those, observed point[index]>>.  The coordinates are THE coordinates of the index iff they lie in the
+\* box and map to it (IndexIsBijection); no enumeration of the big coordinate set is needed.
+InBox(shape_, c_) == Len(c_) = Len(shape_) /\ \A r_ \in 1..Len(shape_) : c_[r_] \in 0..shape_[r_] - 1
+SamplePoint(c_) == IF Rec.kind = "big-tensor" THEN TensorPoint(Rec.nodes, c_) ELSE PointOf(Rec.origin, Rec.axes, c_)
+JudgeBig ==
+    AtRecord /\ Has(Rec.samples) =>
+        \A x_ \in 1..Len(Rec.samples) :
+            LET smp == Rec.samples[x_] IN
+            /\ (InBox(RShape, smp[2]) /\ IndexOf(RShape, smp[2]) = smp[1])
+                  \/ Say("index_to_coordinates", smp[1], I2CCode(RShape, smp[1]), smp[2])
+            /\ InBox(RShape, smp[2]) =>
+                  /\ smp[3] = IndexOf(RShape, smp[2]) \/ Say("coordinates_to_index", smp[2], IndexOf(RShape, smp[2]), smp[3])
+                  /\ smp[4] = SamplePoint(smp[2]) \/ Say("points", smp[1], SamplePoint(smp[2]), smp[4])
+\* the big cases are admissible and their samples cover both ends and every stride boundary
+BigCasesAdmissible ==
+    (lpc = "idle") =>
+        \A b_ \in 1..Len(BigShapes) :
+            /\ NPoints(BigShapes[b_]) < 70000 /\ Det(SkewAxesFor(BigShapes[b_])) # 0
+            /\ {0, NPoints(BigShapes[b_]) - 1} \subseteq Range(BigSample(BigShapes[b_]))
+            /\ \A r_ \in 1..Len(BigShapes[b_]) : Stride(BigShapes[b_], r_) \in Range(BigSample(BigShapes[b_]))
+            /\ StridesCode(BigShapes[b_]) = Strides(BigShapes[b_])
+            /\ \A x_ \in Range(BigSample(BigShapes[b_])) :
+                  /\ InBox(BigShapes[b_], I2CCode(BigShapes[b_], x_))
+                  /\ C2ICode(BigShapes[b_], I2CCode(BigShapes[b_], x_)) = x_
+PermNodesAdmissible ==
+    AtShape => \A d_ \in 1..Len(lshape) :
+        LET nd == PermNodesFor(lshape)[d_] IN
+        /\ Cardinality(Range(nd)) = Len(nd)
+        /\ Len(nd) >= 3 => /\ \E x_ \in 1..Len(nd) - 1 : nd[x_] < nd[x_ + 1]
+                           /\ \E x_ \in 1..Len(nd) - 1 : nd[x_] > nd[x_ + 1]
 \* every exhaustively modelled shape was observed through both grid classes
 ObsCoverShapes ==
     (lpc = "idle" /\ ~Emit) =>
